@@ -145,8 +145,10 @@ class Check:
             if "wf_input" in rj["failing"]:
                 from harness.tlc import MachineryError
                 raise MachineryError(f"scenario outside the spec's input domain (harness bug): {json.dumps(rec)[:1500]}")
-            self.rejects.append({"id": rj["id"], "failing": sorted(rj["failing"]),
-                                 "cls": rec.get("cls", ""), "rec": rec})
+            cls = rec.get("cls", "")
+            if rj.get("tag"):
+                cls = f"{cls}:{rj['tag']}"      # input class computed by the spec
+            self.rejects.append({"id": rj["id"], "failing": sorted(rj["failing"]), "cls": cls, "rec": rec})
 
     def sample(self, rec, n: int = 3):
         if len(self.samples) < n:
